@@ -16,7 +16,7 @@ def run(ctx):
     rows = ctx.path("rows.ndjson")
     n = 0
     with open(rows, "w") as fh:
-        for mode, kw in (("sizes", dict(MaxN=maxn)), ("subsets", dict(MaxSub=7 if ctx.tier == "quick" else 9))):
+        for mode, kw in (("sizes", dict(MaxN=maxn, BigN=1100 if ctx.tier == "quick" else 4200)), ("subsets", dict(MaxSub=7 if ctx.tier == "quick" else 9))):
             cfg = c01.write_cfg(ctx, "rmt_" + mode, c01.cfg_text("RMT_" + mode, **kw))
             r = ctx.tlc("RMT", cfg, workers=1, timeout=1800, java_opts="-Xss512m")
             if r["violation"]:
@@ -32,7 +32,7 @@ def run(ctx):
         ctx.violation(v["key"], v["what"], v.get("replay"))
     log("[c11] sizes=%d subsets=%d evaluations=%d witness positions=%d tampered rejected=%d" % (
         res["sizes"], res["subsets"], res["evaluations"], res["witness_positions"], res["tampered_rejected"]))
-    if not ctx.violations and (res["sizes"] < maxn or res["subsets"] < 100):
+    if not ctx.violations and (res["sizes"] < maxn + 20 or res["subsets"] < 100):
         raise Inconclusive("rows missing: vacuous")
     cov = dict(traces_validated_against_impl=res["sizes"] + res["subsets"],
                samples=[dict(n=5, subset=[3, 5], what="append 5 leaves, prove {3,5}, verify, tamper, update through the proof, reload")],
